@@ -353,6 +353,20 @@ func (g *Gen) Hostile() (kind string, body []byte) {
 		}
 		return "undeclared-criterion-value", JSONBytes(b)
 	}
+	if r.Bool(0.03) {
+		// a first JSON value with a field of the wrong type, followed by trailing data (a stray
+		// brace, a second document): decoders stop at the type error before they see the rest
+		b := CloneJ(q.Body).(map[string]interface{})
+		var leaves []leafRef
+		collectNumericLeaves(b["knownAlternatives"], &leaves)
+		collectNumericLeaves(b["methodParameters"], &leaves)
+		if _, ok := b["biasApplyRandomSeed"]; ok && r.Bool(0.3) {
+			b["biasApplyRandomSeed"] = "x"
+		} else if len(leaves) > 0 {
+			leaves[r.Intn(len(leaves))].setAny("x")
+		}
+		return "mistyped-then-trailing-data", append(JSONBytes(b), []byte(r.PickS("}", ",", " {}", "\n[1]", " x", "{\"a\":1}"))...)
+	}
 	if r.Bool(0.04) {
 		// a number given as the string a sloppy client would send ("20" for 20), or as a bool: the
 		// nearest wrong type - a lenient decoder would take it, a strict one refuses; either way
